@@ -46,8 +46,8 @@ class Ctx:
                 p["sigma"] = 0.0
         # output-only parameters whose functions depend on time / constants only (no model quantity)
         a["pars"] += [dict(name="tt", fmt=None, fn="0.01*(t-2000)"), dict(name="kk", fmt=None, fn="0.5*dt"), dict(name="uu", fmt=None, fn="tt+sus/100")]
-        # a program whose coverage denominator sums four compartments (2 populations x 2 compartments)
-        a["progs"]["progs"].append(dict(name="P3", pops=["pa1", "pb1"], comps=["sus", "vac"], spend=250.0, uc=15.0, oneoff=True))
+        # a program whose coverage denominator sums eight compartments (2 populations x 4 compartments): the order of that sum must not depend on hashing
+        a["progs"]["progs"].append(dict(name="P3", pops=["pa1", "pb1"], comps=["sus", "vac", "ca", "cb"], spend=250.0, uc=15.0, oneoff=True))
         a["progs"]["covouts"][1]["progs"]["P3"] = 0.7
         self.A = World(a)
         # a parameter set carrying an explicit initialisation (saved state of a previous run)
@@ -176,7 +176,7 @@ def run_history(case):
     ctx = Ctx()
     inputs = ctx.inputs()
     h0 = {k: snap_hash(v) for k, v in inputs.items()}
-    s0 = None
+    s0 = {k: snap(v) for k, v in inputs.items()}
     vs = []
     for i, op in enumerate(case["hist"]):
         got = apply_op(ctx, op)
@@ -192,8 +192,6 @@ def run_history(case):
                 vs.append(V("variant-differs-from-plain-run", f"after {prefix}: {label} produced by {op} differs from a plain run of the same configuration", dict(hist=prefix)))
         for k, v in inputs.items():
             if snap_hash(v) != h0[k]:
-                if s0 is None:
-                    s0 = {kk: snap(vv) for kk, vv in Ctx().inputs().items()}
                 vs.append(V("input-modified", f"after {prefix}: {k} changed: {diff(s0[k], snap(v))[:2]}", dict(hist=prefix, obj=k)))
                 h0[k] = snap_hash(v)
         if len(vs) >= 3:
